@@ -29,9 +29,17 @@ def run_threads(ctx, duration, nthreads):
     srcs = [s for s in sources(rng, 12) if s[0].splitters]
     # sequential reference
     ref = []
+    usable = []
     for prog, text, envs in srcs:
-        ev, _ = common.quiet(lambda: ExperimentEvaluator(text))
-        ref.append((common.canon_ast(parse_source(text)), [common.outcome_of(lambda: ev(**e)) for e in envs]))
+        try:
+            ev, _ = common.quiet(lambda: ExperimentEvaluator(text))
+            ref.append((common.canon_ast(parse_source(text)), [common.outcome_of(lambda: ev(**e)) for e in envs]))
+            usable.append((prog, text, envs))
+        except Exception:  # noqa  (a source that does not even compile sequentially is another property's business)
+            ctx.count("sequential-compile-failure")
+    srcs = usable
+    if not srcs:
+        return [], 0
     old_text = 'def e { salt: "o" splitters: u return "old1" weighted 1, "old2" weighted 1 }'
     new_text = 'def e { salt: "n" splitters: u /* c */ return "new1" weighted 1, "new2" weighted 3 } // x'
     bad_text = 'def e { splitters: u return "a" weighted }'
